@@ -66,7 +66,7 @@ func main() {
 }
 
 func oneHistory(c *hx.Ctx, k int, r *rand.Rand) bool {
-	ap := agg.NewProcess(10*time.Hour, 5*time.Hour, 1, nil)
+	ap := agg.NewProcess(2*time.Hour, 50*time.Hour, 1, nil)
 	nflows := 2 + r.IntN(5)
 	gens := make([]*flowGen, nflows)
 	perm := r.Perm(6)
@@ -198,9 +198,47 @@ func oneHistory(c *hx.Ctx, k int, r *rand.Rand) bool {
 			touched = &kk
 			resetOp = true
 			c.Add("resets", 1)
+		case x == 18: // active expiry: every ready flow is exported and reset by the callback, and kept
+			allReady := len(model) > 0
+			for _, f := range model {
+				if f.Corr && !(f.N[0].Seen && f.N[1].Seen) {
+					allReady = false // a flow awaiting correlation would consume a retry: C07's business
+				}
+			}
+			if !allReady {
+				continue
+			}
+			word = append(word, "export(active expiry, callback resets)")
+			ap.VerifShiftDeadlines(2*time.Hour + time.Minute)
+			exported := 0
+			if err := ap.ForAllExpiredFlowRecordsDo(func(key intermediate.FlowKey, rec *intermediate.AggregationFlowRecord) error {
+				exported++
+				return ap.ResetStatAndThroughputElementsInRecord(rec.Record)
+			}); err != nil {
+				return fail("export-error", err.Error())
+			}
+			if exported != len(model) {
+				return fail("export-count", fmt.Sprintf("%d flows exported on active expiry, %d are live and ready", exported, len(model)))
+			}
+			for key, f := range model {
+				f.Reset()
+				fk := key.FlowKey()
+				recs := ap.GetRecords(&fk)
+				if len(recs) != 1 {
+					return fail("one-record-per-flow", fmt.Sprintf("GetRecords(%v) returned %d records after an active export", fk, len(recs)))
+				}
+				if class, why := f.Check(recs[0]); class != "" {
+					return fail(class, "after export+reset: "+why)
+				}
+				if name, ok := agg.SameExcept(prev[key], recs[0], agg.ResetTouches); !ok {
+					return fail("reset-touched-other-field", fmt.Sprintf("export+reset changed %q", name))
+				}
+				prev[key] = recs[0]
+			}
+			c.Add("active_exports", int64(exported))
 		default: // every flow expires by inactivity and is deleted; re-created flows start from zero
 			word = append(word, "expire-all")
-			ap.VerifShiftDeadlines(6 * time.Hour)
+			ap.VerifShiftDeadlines(51 * time.Hour)
 			n := 0
 			if err := ap.ForAllExpiredFlowRecordsDo(func(key intermediate.FlowKey, rec *intermediate.AggregationFlowRecord) error { n++; return nil }); err != nil {
 				return fail("expire-error", err.Error())
@@ -219,7 +257,7 @@ func oneHistory(c *hx.Ctx, k int, r *rand.Rand) bool {
 			c.Add("expire_all", 1)
 			// flows awaiting correlation are retried, not deleted, on their first expiry: drain them
 			for i := 0; i < 5 && ap.GetNumFlows() > 0; i++ {
-				ap.VerifShiftDeadlines(11 * time.Hour)
+				ap.VerifShiftDeadlines(51 * time.Hour)
 				ap.ForAllExpiredFlowRecordsDo(func(key intermediate.FlowKey, rec *intermediate.AggregationFlowRecord) error { return nil })
 			}
 		}
